@@ -948,10 +948,13 @@ let run (lineno : int) (lbc : str -> n list) ofit (args : string array) (impl : 
              let expect = List.init nrows (fun rr -> l @ List.concat (List.init cols (fun k -> cell rr k @ (if k = cols - 1 then lastpad else m))) @ r) in
              if rows <> expect then say "C20" "FAIL" "rows are not gaps + column-major padded cells of wrap at the column width"
              else begin
-               let fits = List.for_all (fun x -> n_le (dwm x) colw && top_level x) lines in
-               let plain = not (has_esc l || has_esc m || has_esc r) in
+               let fits = List.for_all (fun x -> n_le (dwm x) colw) lines in
+               (* every component of a row ends outside an escape sequence: then widths add up *)
+               let closed = List.for_all top_level lines && top_level l && top_level m && top_level r in
                let w0 = N.add (N.add (N.add (N.add (dwm l) (dwm r)) (N.mul (n_of_int (cols - 1)) (dwm m))) (N.mul (n_of_int cols) colw)) (snd (N.div_eucl inner colw)) in
-               if fits && plain && List.exists (fun row -> not (N.eqb (dwm row) w0)) rows then say "C20" "FAIL" "rows have different display widths"
+               let uneven = List.exists (fun row -> not (N.eqb (dwm row) w0)) rows in
+               if fits && uneven && closed then say "C20" "FAIL" "rows have different display widths"
+               else if fits && uneven then say "C20" "known" "LineEndsInsideEscape"
                else say "C20" "ok" ""
              end
          | _ -> ())
